@@ -40,8 +40,8 @@ pub fn plan(tier: Tier, backend: Backend) -> Plan {
             n_depth: if backend == Backend::IrInt { 5 } else { 4 },
         },
         Tier::Thorough => Plan {
-            a_len: 8 + extra,
-            a_len_allwidths: 8 + extra,
+            a_len: 8,
+            a_len_allwidths: 8,
             b_tokens: 6,
             s_k: 3,
             s_inner: 1,
@@ -92,6 +92,11 @@ pub fn enumerate(p: &Plan, f: &mut dyn FnMut(u64, &'static str, &[u8])) -> u64 {
     base += spaces::space_s(p.s_k.min(2), 0, &mut |i, c| f(s0 + i, "S", c));
     let sp = base;
     base += spaces::space_sp(&mut |i, c| f(sp + i, "S", c));
+    if p.s_k < 3 && p.n_depth >= 5 {
+        // quick tier of the IR interpreter: three additive statements (the full three-statement space is thorough only)
+        let s3r = base;
+        base += spaces::space_s3_reduced(&mut |i, c| f(s3r + i, "S3", c));
+    }
     if p.s_k >= 3 {
         // three-statement bodies: the largest sub-space; run at the extreme widths with a shallower input tree
         let s3 = base;
